@@ -1,9 +1,12 @@
 package main
 
 import (
+	"fmt"
 	"go/constant"
 	"go/token"
 	"go/types"
+	"os"
+	"sort"
 	"strings"
 
 	"golang.org/x/tools/go/ssa"
@@ -514,4 +517,120 @@ func errNonNilVia(v ssa.Value, at ssa.Instruction, depth int) bool {
 		return false
 	}
 	return n > 0
+}
+
+// ---------- boolean-atom path sensitivity ----------
+
+// condAtom maps a branch condition to (atom key, polarity). Atoms: an SSA boolean value, or a load of a struct field
+// (all loads of the same field of the same base are one atom when the function never stores to that field).
+func condAtom(fn *ssa.Function, v ssa.Value) (string, bool) {
+	pol := true
+	for {
+		if u, ok := v.(*ssa.UnOp); ok && u.Op == token.NOT {
+			v, pol = u.X, !pol
+			continue
+		}
+		break
+	}
+	if u, ok := v.(*ssa.UnOp); ok && u.Op == token.MUL {
+		if fa, ok := u.X.(*ssa.FieldAddr); ok {
+			// version the atom by the set of stores to that field that can reach this load
+			var reach []string
+			allInstrs(fn, func(i ssa.Instruction) {
+				if st, ok := i.(*ssa.Store); ok {
+					if f2, ok := st.Addr.(*ssa.FieldAddr); ok && f2.Field == fa.Field && f2.X == fa.X {
+						if ReachAvoiding(fn, st, func(x ssa.Instruction) bool { return x == ssa.Instruction(u) }, nil) != nil {
+							reach = append(reach, fmt.Sprintf("b%d.%d", st.Block().Index, instrIndex(st)))
+						}
+					}
+				}
+			})
+			return fmt.Sprintf("field:%s.%d@%s", fa.X.Name(), fa.Field, strings.Join(reach, "+")), pol
+		}
+	}
+	return "val:" + v.Name(), pol
+}
+
+// MustPassThroughPS is MustPassThrough with consistency of repeated boolean conditions: a path that takes contradictory
+// branches on the same atom is not considered. Returns an offending success return, or nil.
+func MustPassThroughPS(fn *ssa.Function, from ssa.Instruction, P func(ssa.Instruction) bool) *ssa.Return {
+	type state struct {
+		b   *ssa.BasicBlock
+		idx int
+		env string
+	}
+	var found *ssa.Return
+	seen := map[string]bool{}
+	var walk func(b *ssa.BasicBlock, idx int, env map[string]bool, depth int)
+	envKey := func(env map[string]bool) string {
+		keys := make([]string, 0, len(env))
+		for k, v := range env {
+			keys = append(keys, fmt.Sprintf("%s=%v", k, v))
+		}
+		sort.Strings(keys)
+		return strings.Join(keys, ",")
+	}
+	walk = func(b *ssa.BasicBlock, idx int, env map[string]bool, depth int) {
+		if found != nil || depth > 400 {
+			return
+		}
+		k := fmt.Sprintf("%d|%d|%s", b.Index, idx, envKey(env))
+		if seen[k] {
+			return
+		}
+		seen[k] = true
+		for i := idx; i < len(b.Instrs); i++ {
+			in := b.Instrs[i]
+			if P(in) {
+				return
+			}
+			switch t := in.(type) {
+			case *ssa.Return:
+				if !IsFailureReturn(t) {
+					found = t
+					if os.Getenv("FXDEBUG_PS") != "" {
+						fmt.Println("PS-DEBUG offending path env:", envKey(env), "block", b.Index)
+					}
+				}
+				return
+			case *ssa.Panic:
+				return
+			case *ssa.If:
+				atom, pol := condAtom(fn, t.Cond)
+				if val, ok := env[atom]; ok {
+					taken := val == pol
+					nb := b.Succs[1]
+					if taken {
+						nb = b.Succs[0]
+					}
+					walk(nb, 0, env, depth+1)
+					return
+				}
+				for _, br := range []bool{true, false} {
+					e2 := map[string]bool{}
+					for kk, vv := range env {
+						e2[kk] = vv
+					}
+					e2[atom] = br == pol
+					nb := b.Succs[1]
+					if br {
+						nb = b.Succs[0]
+					}
+					walk(nb, 0, e2, depth+1)
+				}
+				return
+			}
+		}
+		for _, s := range b.Succs {
+			walk(s, 0, env, depth+1)
+		}
+	}
+	if from == nil {
+		if len(fn.Blocks) > 0 {
+			walk(fn.Blocks[0], 0, map[string]bool{}, 0)
+		}
+	} else {
+		walk(from.Block(), instrIndex(from)+1, map[string]bool{}, 0)
+	}
+	return found
 }
